@@ -3,6 +3,7 @@ Tie: real PathFilter::new / check (globset underneath) vs the Gallina model of t
 semantics, vsb's pre-unescaping and rule-line parsing, on specs generated from a token grammar with paths derived
 from the globs, an exhaustive small universe, and a malformed stream."""
 import itertools
+import os
 import re
 
 from vlib import sexp
@@ -218,11 +219,44 @@ def run(ctx):
     ctx.count("verdicts.denied", denied)
     ctx.count("verdicts.allowed", allowed)
     ctx.extra["pairs_compared"] = denied + allowed
+    walker_part(ctx)
     ctx.extra["exhaustive"] = True
     ctx.notes.append("pruning of excluded directories by the walker is proved on the walker model (archived_iff); its tie to the real binary "
                      "(trees backed up for real, path set vs model) belongs to the storage-level driver and is not part of this run yet")
     ctx.assumptions += ["globset's regex engine implements the regular language of each token (the parser and the token -> language "
                         "translation are modelled and compared, the engine is not)"]
+
+
+WALK_FILTERS = [
+    ["- d1"], ["+ d1/c.txt", "- d1"], ["- d1/*", "+ **"], ["- **/*.o", "- .hid"], ["+ d2/**", "- *"], ["- d1/d2", "+ d1/**", "- **"],
+    ["- sp\\ ace"], ["- {d1,d2}/c.txt"], ["- [ab]"], ["- ?"], ["+ **/c.txt", "- d2/**"],
+]
+
+
+def walker_part(ctx):
+    """real `vsb backup` runs with filters: the archived path set vs the walker + filter model (pruning: nothing below an
+    excluded directory is backed up, even when a deeper rule would allow it; the item root is never filtered)"""
+    from vlib import build, runs, slevel
+    build.ensure_vsb()
+    rng = ctx.rng
+    n = 40 if ctx.tier == "thorough" else 6
+    for k in range(n):
+        with slevel.Sandbox("c14") as sb:
+            f = rng.choice(WALK_FILTERS)
+            H = runs.History(ctx, sb, rng, "C14", 3, 3, nitems=1, filters=[f])
+            H.w.populate(nfiles=14)
+            res, published, name = H.run(nedits=0)
+            ctx.count("walker.runs")
+            if published:
+                snap = H.snapshots[name]
+                root = os.path.realpath(os.path.join(H.w.src, "item0"))
+                kept = sum(1 for x in snap if x["path"].startswith(root + "/"))
+                total = sum(len(d) + len(fl) for _, d, fl in os.walk(root))
+                ctx.count("walker.paths_kept", kept)
+                ctx.count("walker.paths_excluded", total - kept)
+            H.report_diffs("walker-filter")
+        if ctx.violations:
+            break
 
 
 def replay(ctx, doc):
